@@ -67,12 +67,15 @@ package mqttproxy
 
 import (
 	"bufio"
+	"bytes"
 	stdcontext "context"
+	"encoding/json"
 	"fmt"
 	"io"
 	"log"
 	"net"
 	"net/http"
+	"net/http/httptest"
 	"sort"
 	"strings"
 	"testing"
@@ -126,6 +129,14 @@ type c17MClient struct {
 	Ops []c17MOp `json:"ops"`
 }
 
+// c17MDel is one session-delete request sent to the broker's admin handler
+// (DELETE /mqttproxy/<name>/sessions): store delete -> delete watch ->
+// Broker.deleteSession(id).
+type c17MDel struct {
+	GapUs int64  `json:"gap_us"`
+	ID    string `json:"id"`
+}
+
 type c17Scenario struct {
 	Kind        string       `json:"kind"` // http-ll | http-rt | mqtt
 	Cap         int          `json:"cap"`
@@ -136,6 +147,9 @@ type c17Scenario struct {
 	HClients    []c17HClient `json:"h_clients"`
 	Admin       []c17Resize  `json:"admin"`
 	MClients    []c17MClient `json:"m_clients"`
+	MAdmin      []c17MDel    `json:"m_admin"`    // mqtt: session deletes through the admin handler
+	DiscYields  int          `json:"disc_yields"` // mqtt: > 0 = a Disconnect pipeline is configured; its handler passes that many gates ...
+	DiscUs      int64        `json:"disc_us"`     // ... and takes that long
 }
 
 func c17Gen(rng *sim.Rand, tier string) interface{} {
@@ -207,16 +221,34 @@ func c17GenHTTP(rng *sim.Rand, sc *c17Scenario) {
 
 func c17GenMQTT(rng *sim.Rand, sc *c17Scenario) {
 	sc.Cap = rng.Pick(1, 1, 2, 2, 3, 4)
+	if rng.Bool(0.3) {
+		// a Disconnect pipeline: Client.close() then takes a while (gates and
+		// virtual time) after the client has been marked disconnected
+		sc.DiscYields = rng.Pick(1, 2, 4)
+		sc.DiscUs = int64(rng.Pick(0, 0, 1, 100, 10000))
+	}
+	withDel := rng.Bool(0.5)
+	if withDel && rng.Bool(0.45) {
+		c17GenMQTTEvict(rng, sc)
+		return
+	}
 	pool := sc.Cap + rng.Pick(0, 1, 1, 2)
 	nt := rng.Range(2, 6)
 	uniq := 0
 	cleanP := float64(rng.Pick(0, 0, 0, 20, 50)) / 100
 	abortP := float64(rng.Pick(0, 5, 5, 15)) / 100
+	lingerP := 0.30
+	if withDel {
+		lingerP = 0.45
+	}
 	dur := func() int64 { return int64(rng.Pick(0, 0, 1, 10, 1000, 100000, 1000000)) }
 	for t := 0; t < nt; t++ {
 		var cl c17MClient
 		for k, n := 0, rng.Range(1, 4); k < n; k++ {
 			op := c17MOp{GapUs: dur(), HoldUs: dur(), Pings: rng.Pick(0, 0, 1, 2)}
+			if withDel {
+				op.Pings = rng.Pick(0, 1, 2, 3)
+			}
 			op.ID = fmt.Sprintf("c%d", rng.Intn(pool))
 			if rng.Bool(cleanP) {
 				// CleanSession only with an id that is used once (see header)
@@ -232,7 +264,7 @@ func c17GenMQTT(rng *sim.Rand, sc *c17Scenario) {
 				op.Clean = false
 				op.End = "abort-reset"
 				op.AbortUs = int64(rng.Pick(0, 0, 1, 10, 100, 5000))
-			case x < abortP+0.30:
+			case x < abortP+lingerP:
 				op.End = "linger"
 			case x < abortP+0.65:
 				op.End = "disconnect"
@@ -246,6 +278,70 @@ func c17GenMQTT(rng *sim.Rand, sc *c17Scenario) {
 			cl.Ops = append(cl.Ops, op)
 		}
 		sc.MClients = append(sc.MClients, cl)
+	}
+	if withDel {
+		// session deletes of pool ids at instants drawn from the same small set
+		// as the clients' gaps, so that they coincide with connects of that id
+		for k, n := 0, rng.Range(1, 4); k < n; k++ {
+			sc.MAdmin = append(sc.MAdmin, c17MDel{GapUs: dur(), ID: fmt.Sprintf("c%d", rng.Intn(pool))})
+		}
+	}
+}
+
+// c17GenMQTTEvict draws the family "session delete of a connected id while the
+// same id reconnects, then other ids fill the table": the victim id and some
+// other ids connect and stay; at one instant T the victim's session is deleted
+// through the admin handler and a new connection with the victim's id arrives
+// (same instant up to a drawn jitter); later connections with fresh ids arrive
+// until the pool exceeds the cap. Everything lingers and pings, so the final
+// roll call sees who is served at the same time.
+func c17GenMQTTEvict(rng *sim.Rand, sc *c17Scenario) {
+	sc.Cap = rng.Pick(1, 2, 2, 2, 3, 3, 4)
+	T := int64(rng.Pick(1, 10, 1000, 100000, 1000000))
+	// the CONNECT packet of the harness client (client id "cN") has 16 bytes
+	arrive := sc.DelayUs
+	if sc.SegSize > 0 {
+		arrive = sc.DelayUs * int64((16+sc.SegSize-1)/sc.SegSize)
+	}
+	jit := func() int64 {
+		switch rng.Intn(8) {
+		case 0:
+			return 1
+		case 1:
+			return int64(rng.Pick(10, 100))
+		case 2, 3, 4:
+			return arrive
+		}
+		return 0
+	}
+	end := func() string { return rng.PickStr("linger", "linger", "linger", "linger", "close", "disconnect", "reset") }
+	pre := sc.Cap - 2
+	if rng.Bool(0.25) {
+		pre = sc.Cap - 1 // the table is at its cap when the victim comes back
+	}
+	if pre < 0 {
+		pre = 0
+	}
+	id := func(i int) string { return fmt.Sprintf("c%d", i) }
+	// the victim's first connection
+	sc.MClients = append(sc.MClients, c17MClient{Ops: []c17MOp{{GapUs: int64(rng.Pick(0, 0, 1)), ID: id(0), HoldUs: int64(rng.Pick(0, 10, 2000000)), Pings: rng.Pick(0, 0, 1, 2), End: end()}}})
+	for i := 1; i <= pre; i++ {
+		sc.MClients = append(sc.MClients, c17MClient{Ops: []c17MOp{{GapUs: int64(rng.Pick(0, 0, 1)), ID: id(i), HoldUs: int64(rng.Pick(0, 10, 1000)), Pings: rng.Pick(0, 1, 2), End: end()}}})
+	}
+	// the delete(s)
+	sc.MAdmin = append(sc.MAdmin, c17MDel{GapUs: T + jit(), ID: id(0)})
+	if rng.Bool(0.3) {
+		sc.MAdmin = append(sc.MAdmin, c17MDel{GapUs: int64(rng.Pick(0, 0, 1, 10, 1000)), ID: id(rng.Intn(pre + 1))})
+	}
+	// the victim comes back (once or twice)
+	back := c17MClient{Ops: []c17MOp{{GapUs: T + jit(), ID: id(0), HoldUs: int64(rng.Pick(0, 10, 1000)), Pings: rng.Pick(0, 1, 2, 2, 3), End: end()}}}
+	if rng.Bool(0.2) {
+		back.Ops = append(back.Ops, c17MOp{GapUs: int64(rng.Pick(0, 1, 10, 1000)), ID: id(0), HoldUs: int64(rng.Pick(0, 10, 1000)), Pings: rng.Pick(0, 1, 2), End: end()})
+	}
+	sc.MClients = append(sc.MClients, back)
+	// fresh ids afterwards
+	for k, n := 0, rng.Range(1, 3); k < n; k++ {
+		sc.MClients = append(sc.MClients, c17MClient{Ops: []c17MOp{{GapUs: T + jit() + int64(rng.Pick(1, 10, 1000, 100000)), ID: id(pre + 1 + k), HoldUs: int64(rng.Pick(0, 10, 1000)), Pings: rng.Pick(0, 1, 2), End: end()}}})
 	}
 }
 
@@ -802,6 +898,8 @@ type c17MC struct {
 	takeAtCap  bool
 	conn       net.Conn
 	lingering  bool
+	pingSent   []int // sequence numbers at which this connection's PINGREQs were sent
+	answered   int   // how many of them were answered with a PINGRESP
 }
 
 type c17M struct {
@@ -814,8 +912,11 @@ type c17M struct {
 	hist    []string
 	sig     strings.Builder
 	maxLen  int
+	lastDel map[string]time.Duration // id -> instant of the last session delete issued for it
+	delSeq  map[string][]int         // id -> sequence numbers of the session deletes issued for it
 
 	sawRefused, sawFull, sawTakeover bool
+	sawZombiePong, sawServedAtCap    bool
 }
 
 func (m *c17M) next() int { m.seq++; return m.seq }
@@ -896,6 +997,109 @@ func (m *c17M) brokerIDs() []string {
 	return ids
 }
 
+// registered tells (white box, used for probes and messages only) whether the
+// broker's table maps the connection's client id to this very connection.
+func (m *c17M) registered(c *c17MC) bool {
+	cl := m.b.clients[c.id]
+	if cl == nil {
+		return false
+	}
+	sc, ok := cl.conn.(*simnet.Conn)
+	return ok && sc.ID == c.sid
+}
+
+// servedUntil returns the latest sequence number up to which the connection
+// was certainly served as a connected client: it was admitted (CONNACK
+// accepted read at resSeq) and, after that instant, the broker answered two
+// successive PINGREQs, the first of which was sent at the returned instant.
+// Two, because a broker that has just dropped a connection (session delete,
+// takeover) may still answer the one packet it was waiting for, but it cannot
+// carry on a conversation with a client it no longer counts. 0 = no evidence.
+func (c *c17MC) servedUntil() int {
+	if c.state != "accepted" || c.answered < 2 {
+		return 0
+	}
+	return c.pingSent[c.answered-2]
+}
+
+// servedTogether returns the largest set of client ids that were certainly
+// served at one and the same instant (see servedUntil). Connections of one id
+// count once: a takeover replaces a connection, it does not add a client.
+func (m *c17M) servedTogether() (ids []string, at int) {
+	var best map[string]bool
+	for _, p := range m.conns {
+		t := p.servedUntil()
+		if t == 0 {
+			continue
+		}
+		// candidate instants: the end points of the intervals (an interval
+		// [resSeq, servedUntil] that overlaps a maximal set contains one of them)
+		set := map[string]bool{}
+		for _, c := range m.conns {
+			if u := c.servedUntil(); u != 0 && c.resSeq <= t && t <= u {
+				set[c.id] = true
+			}
+		}
+		if len(set) > len(best) {
+			best, at = set, t
+		}
+	}
+	for id := range best {
+		ids = append(ids, id)
+	}
+	sort.Strings(ids)
+	return ids, at
+}
+
+func (m *c17M) checkServed() {
+	ids, at := m.servedTogether()
+	if len(ids) == m.cap {
+		m.sawServedAtCap = true
+	}
+	if len(ids) <= m.cap || m.r.Violated() {
+		return
+	}
+	var det []string
+	for _, c := range m.conns {
+		if u := c.servedUntil(); u != 0 && c.resSeq <= at && at <= u {
+			det = append(det, fmt.Sprintf("s%d(%s: admitted at #%d, answering pings sent until #%d and later, in the broker's table now: %v)", c.sid, c.id, c.resSeq, u, m.registered(c)))
+		}
+	}
+	m.r.Violate("C17.mqtt-over-cap-answering", "at instant #%d the broker was serving %d client ids %v at once (each had got CONNACK accepted before and answered two successive PINGREQs sent at or after that instant), maxAllowedConnection=%d; connections: %v; broker's own table now: %v\nhistory: %s",
+		at, len(ids), ids, m.cap, det, m.brokerIDs(), m.history())
+}
+
+// ping does one PINGREQ/PINGRESP exchange; false = the connection is dead.
+func (m *c17M) ping(c *c17MC) bool {
+	reg := m.registered(c)
+	at := m.next()
+	if err := packets.NewControlPacket(packets.Pingreq).Write(c.conn); err != nil {
+		return false
+	}
+	c.pingSent = append(c.pingSent, at)
+	for {
+		pk, err := packets.ReadPacket(c.conn)
+		if err != nil {
+			return false
+		}
+		if _, ok := pk.(*packets.PingrespPacket); ok {
+			break
+		}
+	}
+	c.answered = len(c.pingSent)
+	m.next()
+	m.note("pong s%d %s #%d", c.sid, c.id, c.answered)
+	if !reg {
+		// the leniency of servedUntil is needed: the broker answered a packet
+		// of a connection it had already dropped from its table
+		m.sawZombiePong = true
+	}
+	if c.answered >= 2 {
+		m.checkServed()
+	}
+	return true
+}
+
 func (m *c17M) quiescent() string {
 	n := len(m.b.clients)
 	if n > m.maxLen {
@@ -951,6 +1155,9 @@ func (m *c17M) connect(n *simnet.Net, op c17MOp, who string) *c17MC {
 	if op.Clean {
 		m.tainted[op.ID] = true
 	}
+	if at, ok := m.lastDel[op.ID]; ok && at == r.Now() {
+		r.Probe("mqtt.connect_same_instant_as_session_delete")
+	}
 	c.sentSeq = m.next()
 	m.conns = append(m.conns, c)
 	m.note("connect s%d %s clean=%v", c.sid, c.id, op.Clean)
@@ -994,6 +1201,18 @@ func (m *c17M) connect(n *simnet.Net, op c17MOp, who string) *c17MC {
 	case packets.Accepted:
 		c.state = "accepted"
 		m.note("accepted s%d %s", c.sid, c.id)
+		for _, d := range m.conns {
+			if d == c || d.id != c.id || d.state != "accepted" || d.gone {
+				continue
+			}
+			for _, ds := range m.delSeq[c.id] {
+				if ds > d.resSeq && ds < c.resSeq {
+					// an older connection of this id is still open at the client's
+					// end, the id's session was deleted, and the id is admitted again
+					r.Probe("mqtt.deleted_id_admitted_again_while_old_connection_open")
+				}
+			}
+		}
 		if c.takeAtCap {
 			r.Probe("mqtt.takeover_at_cap_accepted")
 		}
@@ -1067,6 +1286,38 @@ func (m *c17M) end(c *c17MC, how string) {
 	}
 }
 
+// c17Disc is the mux mapper and the handler of the Disconnect pipeline: it
+// only takes its time (gates, virtual time), as a pipeline with a filter that
+// calls a backend would.
+type c17Disc struct {
+	r      *sim.Run
+	yields int
+	d      time.Duration
+	off    bool
+	ran    bool
+}
+
+func (x *c17Disc) GetHandler(name string) (egcontext.Handler, bool) {
+	if name == "c17-disconnect" {
+		return x, true
+	}
+	return nil, false
+}
+
+func (x *c17Disc) Handle(ctx *egcontext.Context) string {
+	if x.off {
+		return ""
+	}
+	x.ran = true
+	for i := 0; i < x.yields && i < 8; i++ {
+		x.r.Yield("c17.disconnect-pipeline")
+	}
+	if x.d > 0 {
+		x.r.Sleep(x.d)
+	}
+	return ""
+}
+
 func c17ExecMQTT(r *sim.Run, sc *c17Scenario) {
 	if sc.Cap < 1 || len(sc.MClients) == 0 {
 		return
@@ -1077,12 +1328,16 @@ func c17ExecMQTT(r *sim.Run, sc *c17Scenario) {
 	defer n.Shutdown()
 
 	spec := &Spec{Name: "c17", EGName: "c17", Port: 1883, MaxAllowedConnection: sc.Cap}
-	b := newBroker(spec, newStorage(nil), c17NoMapper{}, func(string, string) ([]string, error) { return nil, nil })
+	disc := &c17Disc{r: r, yields: sc.DiscYields, d: c17Us(sc.DiscUs)}
+	if sc.DiscYields > 0 {
+		spec.Rules = []*Rule{{When: &When{PacketType: Disconnect}, Pipeline: "c17-disconnect"}}
+	}
+	b := newBroker(spec, newStorage(nil), disc, func(string, string) ([]string, error) { return nil, nil })
 	if b == nil {
 		r.Violate("C17.harness", "newBroker returned nil")
 		return
 	}
-	m := &c17M{r: r, b: b, cap: sc.Cap, tainted: map[string]bool{}}
+	m := &c17M{r: r, b: b, cap: sc.Cap, tainted: map[string]bool{}, lastDel: map[string]time.Duration{}, delSeq: map[string][]int{}}
 	r.SetInvariant(m.quiescent)
 	var lingering []*c17MC
 
@@ -1104,22 +1359,8 @@ func c17ExecMQTT(r *sim.Run, sc *c17Scenario) {
 				}
 				r.Sleep(c17Us(op.HoldUs))
 				alive := true
-				for p := 0; p < op.Pings && p < 4 && alive; p++ {
-					if err := packets.NewControlPacket(packets.Pingreq).Write(c.conn); err != nil {
-						alive = false
-						break
-					}
-					for {
-						pk, err := packets.ReadPacket(c.conn)
-						if err != nil {
-							alive = false
-							break
-						}
-						if _, ok := pk.(*packets.PingrespPacket); ok {
-							break
-						}
-					}
-					if alive {
+				for p := 0; p < op.Pings && p < 6 && alive; p++ {
+					if alive = m.ping(c); alive {
 						r.Sleep(c17Us(op.HoldUs))
 					}
 				}
@@ -1140,8 +1381,67 @@ func c17ExecMQTT(r *sim.Run, sc *c17Scenario) {
 			}
 		})
 	}
+	if len(sc.MAdmin) > 0 {
+		dels := sc.MAdmin
+		r.Go("madmin", func() {
+			for _, op := range dels {
+				if r.Violated() || r.Aborted() {
+					return
+				}
+				if op.ID == "" {
+					continue
+				}
+				r.Sleep(c17Us(op.GapUs))
+				// from now on the clients cannot tell any more whether a connection
+				// with this id is still counted by the broker
+				m.tainted[op.ID] = true
+				m.lastDel[op.ID] = r.Now()
+				m.delSeq[op.ID] = append(m.delSeq[op.ID], m.next())
+				m.note("delete-session %s", op.ID)
+				r.Fault("mqtt.session_delete")
+				if cl := b.clients[op.ID]; cl != nil && !cl.disconnected() {
+					r.Probe("mqtt.session_delete_of_connected_id")
+				}
+				for _, c := range m.conns {
+					if c.id == op.ID && c.state == "sent" && !c.gone {
+						r.Probe("mqtt.session_delete_while_id_is_connecting")
+					}
+				}
+				body, _ := json.Marshal(HTTPSessions{Sessions: []*HTTPSession{{SessionID: op.ID}}})
+				req := httptest.NewRequest(http.MethodDelete, "/mqttproxy/c17/sessions", bytes.NewReader(body))
+				b.httpDeleteSessionHandler(httptest.NewRecorder(), req)
+			}
+		})
+	}
 	r.WaitTasks()
 
+	if !r.Violated() && !r.Aborted() {
+		// roll call: every connection that is still open is pinged twice, one
+		// round after the other; those that answer both rounds were all served
+		// at the instant the roll call began (checked in m.ping)
+		answering := 0
+		for round := 0; round < 2 && !r.Violated() && !r.Aborted(); round++ {
+			answering = 0
+			for _, c := range lingering {
+				if c.gone {
+					continue
+				}
+				if m.ping(c) {
+					answering++
+					continue
+				}
+				if r.Violated() || r.Aborted() {
+					break
+				}
+				m.sawClosed(c)
+				c.conn.Close()
+				r.Probe("mqtt.server_closed_established")
+			}
+		}
+		if answering > 0 {
+			r.Probe("mqtt.rollcall_answered")
+		}
+	}
 	if !r.Violated() && !r.Aborted() {
 		for _, c := range lingering {
 			if !c.gone {
@@ -1177,6 +1477,7 @@ func c17ExecMQTT(r *sim.Run, sc *c17Scenario) {
 		}
 	}
 	refused, full := m.sawRefused, m.sawFull
+	disc.off = true
 	if !r.Violated() && !r.Aborted() {
 		// black-box confirmation: exactly cap fresh clients are admitted now
 		var fresh []*c17MC
@@ -1234,6 +1535,15 @@ func c17ExecMQTT(r *sim.Run, sc *c17Scenario) {
 	}
 	if m.sawTakeover {
 		r.Probe("mqtt.takeover_of_connected_id")
+	}
+	if m.sawZombiePong {
+		r.Probe("mqtt.dropped_connection_answered_one_more_ping")
+	}
+	if m.sawServedAtCap {
+		r.Probe("mqtt.ids_answering_together_eq_cap")
+	}
+	if disc.ran {
+		r.Probe("mqtt.disconnect_pipeline_ran")
 	}
 	if refused {
 		r.Nontrivial()
